@@ -260,6 +260,28 @@ def check(repo, rep, tier):
                 "env/try")
         else:
             r3.ok(loc(first_stmt), RT, "%d path(s) where the named backend fails to import: the exception propagates" % len(named_fail))
+    # a KNOWN name: whenever the selection completes, the backend in effect is the module of the row that was named (whatever the
+    # code consulted on the way - package look-ups, tables of requirements); anything else is a silent substitution
+    named_done = 0
+    for s, status, _p in outs:
+        matched = {(a[1], a[2]) for a, t in s.conds if a[0] == "env_eq" and t}
+        if not matched or status == "raise":
+            continue
+        b = s.env.get("backend")
+        if b is not None and b[0] in ("imported", "preloaded") and (b[1], b[2]) in matched:
+            named_done += 1
+            continue
+        if matched & {(a[1], a[2]) for a, t in s.conds if a[0] == "import_ok" and not t}:
+            continue          # swallowed import error: reported above
+        c = [e for e in s.events if e[0] == "decide" and e[1][0][0] == "env_eq" and e[1][1]]
+        r3.violation(loc(c[0][2]) if c else loc(first_stmt), RT, "path {%s} ends with backend_name=%s backend=%s" % (
+            show_path(s), s.env.get("backend_name"), s.env.get("backend")),
+            "PYSNARK_BACKEND names a registered backend, the selection completes without an exception, and the backend in effect is "
+            "not that backend's module: the named backend is skipped silently", "env/named-not-used")
+        break
+    else:
+        if named_done:
+            r3.ok(loc(first_stmt), RT, "%d completed path(s) with a registered name in PYSNARK_BACKEND: the backend in effect is the named row's module" % named_done)
     unknown_paths = []
     for s, status, _p in outs:
         eqs = [(a, t) for a, t in s.conds if a[0] == "env_eq"]
